@@ -14,7 +14,7 @@ META = {
                    'tensor; (I) for EVERY index-set pair of a call the matrix handed to the eigen-solver equals V Psi_y^T U S^-1 built from the SVD of the x-columns of the '
                    'last core, the returned eigenvalue array is Re(lambda) ordered by |lambda - 1| over the COMPLEX eigenvalues (orderings enumerated as cases), and the '
                    'k-th eigentensor has the shared left cores and the last core U S^-1 Re(W[:, order]) of the k-th pair -- so batch results coincide with what the same '
-                   'formulas give for the pair alone (independence of index sets); amuset_hocur: the same after an arbitrary HOCUR result. Index-set lists in which consecutive pairs share their x set, three pairs, and index sets more than ten times longer than the rank with rows of very different size are part of the grid.',
+                   'formulas give for the pair alone (independence of index sets); amuset_hocur: the same after an arbitrary HOCUR result. Index-set lists in which consecutive pairs share their x set, three pairs, and index sets more than ten times longer than the rank with rows of very different size are part of the grid. NOT solver-decided, sampled by the validation run (scenario scale_invariance): eigenvalues for basis functions scaled by 1e-5 and 1e3 per factor against the dense EDMD.',
     'bounds': {'quick': 'state dimension 1-2, 2-3 snapshots, 1-2 modes with 2 functions, 1-2 index-set pairs, reduced size <= 2, all orderings, complex eigenvalues',
                'thorough': '3 pairs, reduced size 3'},
     'outside': ['equality of the eigenvalues with matrix EDMD: both reduce the same operator (similarity invariance), not re-proved', 'HOCUR pivoting', 'ef_tf / st_tf extras', 'rounding'],
